@@ -23,7 +23,7 @@ from ..oracle import crawl
 from ..run import pydoctor_run
 
 ID = "C10"
-RULE = ("template project with 20 canary slots x subsets of slots x canaries built from the pieces "
+RULE = ("template project with 23 canary slots (incl. docstring text that markup puts into an attribute value: image alt, link targets) x subsets of slots x canaries built from the pieces "
         "< > & \" ' &lt; &#0; &zq; ]]> <!-- --> <? <script> onload= and control characters (all positions) plus ` * _ | { } :: \\ "
         "(non-docstring positions), x 5 docformats x themes; and grammar-generated trees for well-formedness. Non-trivial when "
         ">=1 canary with >=1 metacharacter reached >=1 page; distinct by hash of (slots, canaries, docformat).")
